@@ -35,6 +35,31 @@ pub fn families(prop: &str, tier: Tier) -> Vec<Cfg> {
         x.dev = 0;
         v.push(x);
     }
+    // successful acknowledgements in every legal form (shortest, explicit reason code, explicit property length,
+    // with Reason String and User Properties)
+    const FORMS: [(&str, &str); 6] = [
+        ("C02", "C02-acknowledgements-in-every-legal-form"),
+        ("C03", "C03-acknowledgements-in-every-legal-form"),
+        ("C06", "C06-acknowledgements-in-every-legal-form"),
+        ("C16", "C16-acknowledgements-in-every-legal-form"),
+        ("C18", "C18-acknowledgements-in-every-legal-form"),
+        ("C07", "C07-acknowledgements-in-every-legal-form"),
+    ];
+    if let Some((p, name)) = FORMS.iter().find(|(p, _)| *p == prop) {
+        let q = tier == Tier::Quick;
+        let mut x = Cfg::base(name);
+        x.props = vec![p];
+        x.ops = vec![OpK::Pub1, OpK::Pub2, OpK::Sub, OpK::Unsub, OpK::Poll, OpK::DropConn];
+        x.io = IoMenu::benign();
+        x.broker.ack_forms = true;
+        x.broker.receive_max = vec![Some(2)];
+        x.rx = 128;
+        x.max_ops = if q { 6 } else { 8 };
+        x.max_conns = 2;
+        x.max_reqs = if q { 2 } else { 3 };
+        x.dev = 0;
+        v.push(x);
+    }
     v
 }
 
